@@ -199,3 +199,94 @@ def write_schedule(path, g, tours, init_text, obs_fmt=fmt_obs, init_of=None):
                 f.write("S %d %s %s\n" % (actor, label, obs_fmt(obs)))
             f.write("E\n")
     return sum(len(t) for t in tours)
+
+
+def run_tlc_sim(spec, cfg, num, depth, workers=4, seed=1, timeout=1800, cwd=None, env=None):
+    """simulation with a history-printing CONSTRAINT (see *Sim.tla): returns list of behaviours,
+    each a list of (label, obs[, actor])"""
+    metadir = os.path.join("/verif/build/tlc", "s%d_%d" % (os.getpid(), int(time.time() * 1000) % 100000))
+    cmd = ["timeout", str(timeout), "tlc", "-workers", str(workers), "-metadir", metadir, "-config", cfg,
+           "-simulate", "num=%d" % num, "-depth", str(depth), "-seed", str(seed), spec]
+    p = subprocess.Popen(cmd, stdout=subprocess.PIPE, stderr=subprocess.STDOUT, text=True, cwd=cwd, env=env)
+    out = []; log = []
+    for line in p.stdout:
+        if line.startswith('"['):
+            try:
+                rec = json.loads(json.loads(line))
+            except Exception:
+                continue
+            if rec[0] == "H":
+                out.append(rec[1])
+        else:
+            log.append(line.rstrip("\n"))
+    p.wait()
+    shutil.rmtree(metadir, ignore_errors=True)
+    return out, {"rc": p.returncode, "log": log[-60:]}
+
+
+GHOST_KEYS = ("bad", "done", "taint3", "taint4", "taint5")
+
+
+def fmt_obs_noghost(obs):
+    return fmt_obs(obs, [k for k in obs.keys() if k not in GHOST_KEYS])
+
+
+def bfs_parents(g):
+    n = len(g.out)
+    parent = [None] * n
+    seen = [False] * n
+    dq = collections.deque()
+    order = []
+    for i in g.inits:
+        if not seen[i]:
+            seen[i] = True; dq.append(i)
+    while dq:
+        u = dq.popleft(); order.append(u)
+        for e in g.out[u]:
+            v = g.edges[e][1]
+            if not seen[v]:
+                seen[v] = True; parent[v] = e; dq.append(v)
+    return parent, order
+
+
+def path_to_node(g, parent, v):
+    p = []
+    while parent[v] is not None:
+        e = parent[v]; p.append(e); v = g.edges[e][0]
+    p.reverse()
+    return p
+
+
+def analyse(g):
+    """spec-level findings shipped with the graph: refuted invariants (obs.bad), stuck terminal states (obs.done false)
+    returns list of dict(kind, name, path, taints, label)"""
+    parent, order = bfs_parents(g)
+    depth = {}
+    for u in order:
+        depth[u] = 0 if parent[u] is None else depth[g.edges[parent[u]][0]] + 1
+    found = {}
+    indeg_obs = {}
+    for ei, e in enumerate(g.edges):
+        obs = e[4]
+        indeg_obs.setdefault(e[1], (ei, obs))
+        for name in obs.get("bad", []):
+            taints = tuple(k for k in GHOST_KEYS if k.startswith("taint") and obs.get(k))
+            key = ("inv", name, taints)
+            d = depth.get(e[0], 10 ** 9) + 1
+            if key not in found or d < found[key][0]:
+                found[key] = (d, ei)
+    out = []
+    for (kind, name, taints), (d, ei) in found.items():
+        out.append(dict(kind="inv", name=name, taints=list(taints), path=path_to_node(g, parent, g.edges[ei][0]) + [ei], label=g.edges[ei][3]))
+    stuck = {}
+    for v in range(len(g.out)):
+        if not g.out[v] and v in indeg_obs:
+            ei, obs = indeg_obs[v]
+            if obs.get("done") is False:
+                taints = tuple(k for k in GHOST_KEYS if k.startswith("taint") and obs.get(k))
+                d = depth.get(v, 10 ** 9)
+                if taints not in stuck or d < stuck[taints][0]:
+                    stuck[taints] = (d, v, ei)
+    for taints, (d, v, ei) in stuck.items():
+        out.append(dict(kind="stuck", name="NoStuck", taints=list(taints), path=path_to_node(g, parent, v), label=g.edges[ei][3]))
+    return out
